@@ -104,7 +104,7 @@ func runC07(r *Run) {
 	r.NotCovered("recovery from every crash point as a history property (only the write order, the guard and the recomputation inputs are decided); that the active replica set repopulates the former canary nodes (follows from C04.R2 once status.canary is nil); wall-clock arithmetic beyond the retention constant; the validated-and-failed corner (the decision then returns the up-to-date replica set itself, whose template is already the spec's)")
 
 	site := findDecision(r, "C07.R1")
-	if site == nil || !assignRoles(r, "C07.R1", site) {
+	if site == nil || !assignRolesA(r, "C07.R1", site) {
 		return
 	}
 	c07FailedNotPromoted(r, site)
@@ -246,20 +246,11 @@ func c07Rollback(c *c07Ctx) {
 			res[n].ok, res[n].detail = false, d
 		}
 	}
-	nWritePaths := 0
-	for _, p := range failedPaths {
-		desc := "path [" + c07PathDesc(p) + "]"
-		hasTmpl := false
-		for _, st := range tmplStores {
-			if p.Contains(st.Block()) {
-				hasTmpl = true
-			}
-		}
-		if !hasTmpl {
-			bad("failed paths restore the template", desc+" does not store spec.template")
-		}
+	// analyzeWrites checks the order and the payload of the API writes on one path of function w, in
+	// which obj is the new object (with the restored template). It reports whether the path writes.
+	analyzeWrites := func(w *ssa.Function, obj ssa.Value, p *Path, desc string, tmpl []*ssa.Store) bool {
 		var writes []c07Write
-		var specStores []int // path-order indices of stores <obj>.Spec = … deriving from newObj.Spec, with their root
+		var specStores []int // path-order indices of stores <x>.Spec = … deriving from obj.Spec, with their root
 		var specRoots []ssa.Value
 		idx := 0
 		for _, b := range p.Blocks {
@@ -267,12 +258,12 @@ func c07Rollback(c *c07Ctx) {
 				idx++
 				switch x := in.(type) {
 				case ssa.CallInstruction:
-					if e := clientEffect(fn, x); e != nil && isWriteVerb(e.Verb) && shortKind(e.Kind) == "ExtendedDaemonSet" {
+					if e := clientEffect(w, x); e != nil && isWriteVerb(e.Verb) && shortKind(e.Kind) == "ExtendedDaemonSet" {
 						writes = append(writes, c07Write{call: x, status: e.Status, obj: stripConv(e.Obj), idx: idx})
 					}
 					if g := staticCallee(x.Common()); g != nil && r.Prog.IsRuleSite(g) {
 						for _, a := range x.Common().Args {
-							if rt, pp := accessPath(a); rt == newObj && len(pp) >= 2 && pp[0] == "Status" && pp[1] == "Canary" {
+							if rt, pp := accessPath(a); rt == obj && len(pp) >= 2 && pp[0] == "Status" && pp[1] == "Canary" {
 								bad("failed paths never select canary nodes", desc+" hands status.canary to "+shortFunc(g))
 							}
 						}
@@ -282,7 +273,7 @@ func c07Rollback(c *c07Ctx) {
 						root, _ := accessPath(x.Addr)
 						if dependsOn(x.Val, func(v ssa.Value) bool {
 							rt, pp := accessPath(v)
-							return rt == newObj && len(pp) >= 1 && pp[0] == "Spec"
+							return rt == obj && len(pp) >= 1 && pp[0] == "Spec"
 						}) {
 							specStores = append(specStores, idx)
 							specRoots = append(specRoots, root)
@@ -293,20 +284,16 @@ func c07Rollback(c *c07Ctx) {
 		}
 		var statusW, objW *c07Write
 		for i := range writes {
-			w := &writes[i]
-			if w.status && statusW == nil {
-				statusW = w
+			wr := &writes[i]
+			if wr.status && statusW == nil {
+				statusW = wr
 			}
-			if !w.status && objW == nil {
-				objW = w
+			if !wr.status && objW == nil {
+				objW = wr
 			}
 		}
 		if statusW == nil && objW == nil {
-			continue // nothing written: either equal objects or an error return before the writes
-		}
-		nWritePaths++
-		if !p.Has(false, isDeepEqual) {
-			bad("writes inside the whole-object diff guard", desc+" writes without the fact DeepEqual(reconciled object, new object)=false")
+			return false // nothing written: either equal objects or an error return before the writes
 		}
 		if objW != nil && (statusW == nil || statusW.idx > objW.idx) {
 			bad("status write precedes object write", desc+" calls Update before Status().Update")
@@ -323,18 +310,18 @@ func c07Rollback(c *c07Ctx) {
 		}
 		if objW != nil {
 			okSpec := false
-			if objW.obj == newObj && (statusW == nil || statusW.obj != newObj) {
+			if objW.obj == obj && (statusW == nil || statusW.obj != obj) {
 				okSpec = true
 			}
 			// a copy of the new object that no earlier write has refreshed from the server
-			if cp, isC := objW.obj.(*ssa.Call); isC && strings.HasSuffix(calleeName(&cp.Call), ".DeepCopy") && len(cp.Call.Args) == 1 && stripConv(cp.Call.Args[0]) == newObj {
+			if cp, isC := objW.obj.(*ssa.Call); isC && strings.HasSuffix(calleeName(&cp.Call), ".DeepCopy") && len(cp.Call.Args) == 1 && stripConv(cp.Call.Args[0]) == obj {
 				fresh := true
-				for _, w := range writes {
-					if w.idx < objW.idx && w.obj == objW.obj {
+				for _, wr := range writes {
+					if wr.idx < objW.idx && wr.obj == objW.obj {
 						fresh = false
 					}
 				}
-				for _, st := range tmplStores {
+				for _, st := range tmpl {
 					if !mayFollow(st, cp) {
 						fresh = false
 					}
@@ -351,6 +338,114 @@ func c07Rollback(c *c07Ctx) {
 			if !okSpec {
 				bad("object write carries the restored spec", desc+": the object handed to Update does not receive the new object's spec after the status write returned (Status().Update refreshes its argument from the server)")
 			}
+		}
+		return true
+	}
+	// hasEDSWrite: functions that themselves write the ExtendedDaemonSet
+	hasEDSWrite := func(g *ssa.Function) bool {
+		for _, ci := range callsIn(g) {
+			if e := clientEffect(g, ci); e != nil && isWriteVerb(e.Verb) && shortKind(e.Kind) == "ExtendedDaemonSet" {
+				return true
+			}
+		}
+		return false
+	}
+	type delegation struct {
+		g     *ssa.Function
+		pidx  int
+		known map[int]bool
+		desc  string
+	}
+	var delegations []delegation
+	nWritePaths := 0
+	for _, p := range failedPaths {
+		desc := "path [" + c07PathDesc(p) + "]"
+		hasTmpl := false
+		for _, st := range tmplStores {
+			if p.Contains(st.Block()) {
+				hasTmpl = true
+			}
+		}
+		if !hasTmpl {
+			bad("failed paths restore the template", desc+" does not store spec.template")
+		}
+		wrote := analyzeWrites(fn, newObj, p, desc, tmplStores)
+		// the writes may be delegated to a repository function that receives the new object
+		for _, b := range p.Blocks {
+			for _, in := range b.Instrs {
+				ci, isCall := in.(ssa.CallInstruction)
+				if !isCall {
+					continue
+				}
+				g := staticCallee(ci.Common())
+				if g == nil || !r.Prog.IsRuleSite(g) || !hasEDSWrite(g) {
+					continue
+				}
+				pidx := -1
+				known := map[int]bool{}
+				for ai, a := range ci.Common().Args {
+					if stripConv(a) == newObj {
+						pidx = ai
+					}
+					if a.Type().String() == "bool" {
+						rv := p.Resolve(a)
+						if cb, isC := constBool(rv); isC {
+							known[ai] = cb
+						} else if p.Facts.has(k.key(rv), true) {
+							known[ai] = true
+						} else if p.Facts.has(k.key(rv), false) {
+							known[ai] = false
+						}
+					}
+				}
+				if pidx < 0 {
+					bad("object write carries the restored spec", desc+": "+shortFunc(g)+" writes the ExtendedDaemonSet but does not receive the new object")
+					continue
+				}
+				wrote = true
+				delegations = append(delegations, delegation{g, pidx, known, desc + " → " + shortFunc(g)})
+			}
+		}
+		if !wrote {
+			continue
+		}
+		nWritePaths++
+		if !p.Has(false, isDeepEqual) {
+			bad("writes inside the whole-object diff guard", desc+" writes without the fact DeepEqual(reconciled object, new object)=false")
+		}
+	}
+	doneDeleg := map[string]bool{}
+	for _, d := range delegations {
+		key := fmt.Sprintf("%p|%d|%v", d.g, d.pidx, d.known)
+		if doneDeleg[key] {
+			continue
+		}
+		doneDeleg[key] = true
+		gpaths, _, okg := funcPaths(d.g, 20000)
+		r.paths += len(gpaths)
+		if !okg {
+			bad("status write precedes object write", d.desc+": path cap exceeded")
+			continue
+		}
+		nW := 0
+		for _, q := range gpaths {
+			compatible := true
+			for _, f := range q.Facts {
+				if pr, isP := f.V.(*ssa.Parameter); isP {
+					if kv, okk := d.known[paramIndex(pr)]; okk && kv != f.Pol {
+						compatible = false
+					}
+				}
+			}
+			if !compatible {
+				continue
+			}
+			if analyzeWrites(d.g, d.g.Params[d.pidx], q, d.desc+" ["+c07PathDesc(q)+"]", nil) {
+				nW++
+			}
+		}
+		if nW == 0 {
+			bad("status write precedes object write", d.desc+": no path of the callee performs a write")
 		}
 	}
 	if nWritePaths == 0 {
@@ -675,10 +770,6 @@ func c07DeletionPredicate(c *c07Ctx, g *ssa.Function) {
 		ps := pathsOf(stripConv(v))
 		return len(ps) == 1 && ps[0].root == ssa.Value(ers) && len(ps[0].fields) == 1 && ps[0].fields[0] == "Status"
 	}
-	isFailedCond := func(v ssa.Value, _ string) bool {
-		call, isC := v.(*ssa.Call)
-		return isC && calleeName(&call.Call) == pkgERSCond+".IsConditionTrue" && statusOfErs(call.Call.Args[0])
-	}
 	var condTypes []string
 	zeroOK, zeroDetail := true, ""
 	retOK, retDetail := true, ""
@@ -748,12 +839,13 @@ func c07DeletionPredicate(c *c07Ctx, g *ssa.Function) {
 		}
 		// retention
 		var failedT tri
-		for _, f := range p.Facts {
-			if isFailedCond(f.V, "") {
-				failedT = triOf(f.Pol)
-				if t, okT := condTypeConst(f.V.(*ssa.Call)); okT {
-					condTypes = append(condTypes, t)
-				}
+		for _, a := range condTrueAtoms(factList(p.Facts)) {
+			if !statusOfErs(a.call.Call.Args[0]) {
+				continue
+			}
+			failedT = a.val
+			if a.typ != "" {
+				condTypes = append(condTypes, a.typ)
 			}
 		}
 		switch failedT {
